@@ -27,8 +27,23 @@ UNITS = {
             kind="obligation", tiers=["quick", "thorough"], timeout_s=600, needs_fmt_stub=True,
         ),
         dict(
+            obligation="c19_width_class_nearest_is_a_valid_and_nearest_class", engine="kani", crate="fontdrasil",
+            src="fontdrasil/src/types.rs", functions=["fontdrasil::types::WidthClass::nearest", "fontdrasil::types::WidthClass::to_percent", "fontdrasil::types::WidthClass::all_values"],
+            klass="complete", domain="every f64 width percentage with |p| <= 32768 (what a 16.16 fvar axis default can carry); the loop runs over the nine constant classes",
+            pre="|p| <= 32768",
+            post="nearest(p) as u16 (the value written to OS/2 usWidthClass) is in 1..=9 and equals 1 + #{midpoints m in 56.25, 68.75, 81.25, 93.75, 106.25, 118.75, 137.5, 175 : p > m}: the nearest class, ties to the narrower, out-of-range percentages to the end class",
+            kind="obligation", tiers=["quick", "thorough"], timeout_s=600,
+        ),
+        dict(
+            obligation="c19_width_class_nearest_total", engine="kani", crate="fontdrasil",
+            src="fontdrasil/src/types.rs", functions=["fontdrasil::types::WidthClass::nearest"],
+            klass="complete", domain="every f64 bit pattern (NaN, +/-inf included)",
+            pre="any p", post="no panic (the reduce never sees an empty sequence) and the class number is in 1..=9",
+            kind="obligation", tiers=["quick", "thorough"], timeout_s=600,
+        ),
+        dict(
             obligation="c19_width_class_cover", engine="kani", crate="fontdrasil",
-            src="fontdrasil/src/types.rs", functions=[], klass="complete", domain="", pre="", post="Ok and Err both reachable",
+            src="fontdrasil/src/types.rs", functions=[], klass="complete", domain="", pre="", post="Ok and Err both reachable; classes 1, 5, 9 reachable through nearest()",
             kind="cover", tiers=["quick", "thorough"], timeout_s=600, needs_fmt_stub=True,
         ),
         dict(
@@ -56,8 +71,24 @@ UNITS = {
             kind="obligation", tiers=["quick", "thorough"], timeout_s=900,
         ),
         dict(
+            obligation="c19_use_my_metrics_only_when_advances_and_placement_agree", engine="kani", crate="fontbe",
+            src="fontbe/src/glyphs.rs", functions=["fontbe::glyphs::can_reuse_metrics"],
+            klass="complete", domain="every f64 bit pattern for the six transform coefficients (NaN / inf included); every pair of advances in [-0.5, 65535.5); loop-free apart from the 6-element coefficient compare",
+            pre="both advances fit the hmtx field",
+            post="can_reuse_metrics <=> floor(wg+0.5) == floor(wc+0.5) and 2x2 == identity exactly and floor(dx+0.5) == 0 (dy free): USE_MY_METRICS is set only when the stored advances and the stored placement agree",
+            kind="obligation", tiers=["quick", "thorough"], timeout_s=600,
+        ),
+        dict(
+            obligation="c19_use_my_metrics_never_equates_an_unrepresentable_advance_with_a_representable_one", engine="kani", crate="fontbe",
+            src="fontbe/src/glyphs.rs", functions=["fontbe::glyphs::can_reuse_metrics"],
+            klass="complete", domain="every finite composite advance >= 65535.5 against every component advance in [-0.5, 65534.5); identity transform; loop-free",
+            pre="wg does not fit u16, wc rounds to <= 65534",
+            post="can_reuse_metrics is false: the u16 rounding of the advance saturates and never wraps into the representable range",
+            kind="obligation", tiers=["quick", "thorough"], timeout_s=600,
+        ),
+        dict(
             obligation="c19_component_cover", engine="kani", crate="fontbe",
-            src="fontbe/src/glyphs.rs", functions=[], klass="complete", domain="", pre="", post="Ok reachable incl. large +/- offsets",
+            src="fontbe/src/glyphs.rs", functions=[], klass="complete", domain="", pre="", post="Ok reachable incl. large +/- offsets; USE_MY_METRICS granted and refused both reachable",
             kind="cover", tiers=["quick", "thorough"], timeout_s=600,
         ),
     ],
@@ -330,7 +361,7 @@ ASSUME = {
         "MetricsBuilder::build is bounded by glyph count (quick <= 5, thorough <= 8)",
     ],
     "C19": [
-        "not under contract: advances (width.ot_round() into u16 in MetricAndLimitWork::exec), kerning/anchor values (resolve_variable_metric), GlyphId16::new(gid as u16) in make_variations, point counts `as u16` in MaxBuilder::update, update_composite_limits' unchecked u16 additions (HashMap code, out of CBMC's reach)",
+        "not under contract: advances (width.ot_round() into u16 in MetricAndLimitWork::exec; can_reuse_metrics IS under contract but equates two advances that both saturate at 65535 - a consequence of the recorded advance-saturation findings, not re-reported), kerning/anchor values (resolve_variable_metric), GlyphId16::new(gid as u16) in make_variations, point counts `as u16` in MaxBuilder::update, update_composite_limits' unchecked u16 additions (HashMap code, out of CBMC's reach)",
         "upstream guarantee assumed as precondition for the 2x2 clause: |a|,|b|,|c|,|d| <= 2 (has_overflowing_2x2_transforms + decomposition in fontir)",
     ],
 }
